@@ -97,6 +97,9 @@ func c15Gen(r *Rng, tier string, i int) Sx {
 		extra = append(extra, L(S(key), S(r.Pick([]string{"1", "a b", "x&y", "é"}))))
 	}
 	style := r.Pick([]string{"m", "kv", "b"})
+	if r.Chance(1, 4) { // named routes registered inside a group: the built URL carries the group prefix
+		return L(A("build"), LS(defs), I(idx), A(style), LS(vals), LS(extra), S(r.Pick([]string{"/api/v1", "/g", "adm/"})))
+	}
 	return L(A("build"), LS(defs), I(idx), A(style), LS(vals), LS(extra))
 }
 
@@ -147,6 +150,9 @@ func c15Exec(c Sx) (out Sx) {
 		return L(A("route"), S(rt.Path()))
 	case "build":
 		fake := L(A("rt"), L(), c.List[1], L())
+		if len(c.List) > 6 { // the table is registered inside Group(prefix)
+			fake = L(A("rt"), L(L(A("group"), c.List[6])), c.List[1], L())
+		}
 		rr := rtBuild(fake, false)
 		idx := c.List[2].Int()
 		name := fmt.Sprintf("r%d", idx)
